@@ -8,7 +8,7 @@
 From Coq Require Import String Ascii List NArith Bool Lia ZifyN ZifyNat ZifyBool.
 From J5V.lib Require Import Outcome Strcase.
 From J5V.model Require Import Entity.
-From J5V.proofs Require Import StrcaseProofs EntityProofs EntitySpec EntitySpecProofs.
+From J5V.proofs Require Import StrcaseProofs EntityProofs EntitySpec EntitySpecProofs EntityListProofs EntityFieldTypes.
 Import ListNotations.
 Local Open Scope bool_scope.
 Local Open Scope N_scope.
@@ -1645,7 +1645,9 @@ Theorem full_all_clauses : forall e, in_quantifier e = true -> reserved_free e =
   exists cs, compile e = Ok cs /\ C17_spec_all e cs.
 Proof.
   intros e Hq Hr. destruct (full_modulo_reserved e Hq Hr) as [cs [Hc Hs]]. exists cs. split; [exact Hc|].
-  destruct (accepted_names_settings e cs Hc) as [Hn Hg]. split; [exact Hs|]. split; [exact Hn|exact Hg].
+  destruct (accepted_names_settings e cs Hc) as [Hn Hg]. split; [exact Hs|]. split; [exact Hn|]. split; [exact Hg|].
+  destruct (list_scoped_by_shard_keys e cs Hc Hq) as [Hlp _].
+  split; [exact Hlp|]. split; [exact (list_request_scoped_by_shard_keys e cs Hc)|]. split; [exact (field_types_as_declared e cs Hc)|exact (member_field_types_as_declared e cs Hc)].
 Qed.
 
 (* an entity named Page: its own property in the List response is "page", next to the page field *)
